@@ -19,6 +19,9 @@ def lids_in(n):
     return [(x["name"], x.get("lid")) for x in walk(n) if x["k"] == "Path" and x.get("res") == "local"]
 
 
+from facts import children as _children
+
+
 class Deriv:
     """syntactic may-derive relation inside one function body: local binding -> set of root names
     (parameters / pattern bindings it is computed from), following `let`, `if let` and match-arm
@@ -472,6 +475,9 @@ def run(cx, rep):
                    "%s passes the expression of another module's `export default` on together with a file / anchor that does not come from the export record: the expression is then typed with the IMPORTING module's bindings" % f.id,
                    "%s:%s" % (f.file, c["line"]), sample={"fn": f.id, "call": c.get("method") or c.get("callee")})
     rep.floor("C09.8", "hand-overs of a default-export expression", n_de, 1)
+    # ---------------------------------------------------------------- C09.13
+    rep.rule("C09.13", "syntax taken out of a located record is interpreted with that record's location")
+    payload_file_rule(cx, rep, "C09.13")
     # ---------------------------------------------------------------- C09.7
     rep.rule("C09.7", "the file part of a disambiguated name is cut at a LOWER bound of the prefixes shared with the other files")
     # by role: fn(&BffFileName, &[TypeAddress]) -> String.  The cut index must not exceed the common prefix with ANY other
@@ -739,3 +745,116 @@ def one_table_rule(cx, rep, rid):
                "%s can record one declaration in `%s` AND in `%s`: the two tables are consulted in different orders by the in-file lookup and by the export-list binder, so the name resolves differently depending on the module layout" % (g, bad[0] if bad else "", bad[1] if bad else ""),
                "%s:%s" % (f.file, bad[2].line if bad else f.line), sample={"fn": g, "tables_written": sorted({t[1] for _, t, _ in sites})})
     rep.floor(rid, "functions that write several tables of the local declarations", n, 1)
+
+
+LOC_TY = re.compile(r"(TypeAddress|ValueAddress|ModuleItemAddress|Anchor|BffFileName)\b")
+
+
+def payload_file_rule(cx, rep, rid):
+    """Several records of the frontend pair a piece of SYNTAX (a declaration, an initialiser, a type) with WHERE it
+    was found (`AddressedType::Enum {t, local_address}`, `AddressedQualifiedType::WillBeUsedForEnumItem {enum_type,
+    address}`, `AddressedValue::ValueExpr(expr, file)`, `SymbolExport::* {.., original_file}` ..).  Names inside the
+    syntax mean what they mean in THAT file.  Whoever takes the syntax out of such a record and hands it (or a part
+    of it) to a function that also receives a file / address / anchor must hand over a location taken from the same
+    record; with the location of the place of USE instead, a split program resolves those names in the wrong module
+    (spurious `cannot resolve`, or silently a same-named binding of the using module).  The records are found by their
+    field types; the provenance of arguments is followed through let / if-let / match bindings."""
+    F = cx.rs
+    records = {}
+    for gid, a in sorted(F.adts.items()):
+        if a.get("crate") != "beff_core":
+            continue
+        for v in a["variants"]:
+            syn = [fl["name"] for fl in v["fields"] if "swc_ecma_ast::" in fl["ty"]]
+            loc = [fl["name"] for fl in v["fields"] if LOC_TY.search(fl["ty"])]
+            if syn and loc:
+                records[gid + "::" + v["name"] if a["kind"] == "Enum" else gid] = (set(syn), set(loc))
+    rep.floor(rid, "record types that pair syntax with its location", len(records), 8)
+    n = 0
+    for g in sorted(F.hir):
+        f = F.fns.get(g)
+        if f is None or f.crate == WASM or g.startswith("<") and " as std::" in g:
+            continue
+        tree = F.hir[g]
+        recs = []
+        tagged = {}
+        for p in walk(tree["body"]):
+            d = p.get("def") or ""
+            if p["k"] not in ("P.Struct", "P.TupleStruct") or d not in records:
+                continue
+            syn, loc = records[d]
+            subs = [(fl["name"], fl["pat"]) for fl in p.get("fields", [])] if p["k"] == "P.Struct" else [(str(i), sp) for i, sp in enumerate(p.get("pats", []))]
+            k = "%s@%s" % (d.rsplit("::", 1)[-1], p.get("line"))
+            has_syn = False
+            for name, sp in subs:
+                for b in walk(sp):
+                    if b["k"] == "P.Binding":
+                        if name in syn:
+                            tagged.setdefault(b.get("lid"), set()).add("syn#" + k)
+                            has_syn = True
+                        elif name in loc:
+                            tagged.setdefault(b.get("lid"), set()).add("loc#" + k)
+            if has_syn:
+                recs.append((k, d, p))
+        if not recs:
+            continue
+        D = Deriv(tree)
+        D.tagged = tagged
+        D.field_adt = "\0"
+        parent = {}
+        for x in walk(tree["body"]):
+            for c_ in _children(x):
+                parent[id(c_)] = x
+
+        def closure_lids(e, depth=0, seen=None):
+            seen = seen if seen is not None else set()
+            out = {}
+            for x in walk(e):
+                if x["k"] == "Path" and x.get("res") == "local" and x.get("lid") not in seen:
+                    seen.add(x["lid"])
+                    out[x["lid"]] = x.get("ty") or ""
+                    if depth < 6:
+                        for e2 in D.src.get(x["lid"], []):
+                            out.update(closure_lids(e2, depth + 1, seen))
+            return out
+        # the address a record was FETCHED with (the scrutinee / initialiser the pattern is matched against derives
+        # from a lookup keyed by it) names the same declaration
+        fetch_keys = {}
+        for k, d, p in recs:
+            n_ = p
+            scrut = None
+            while id(n_) in parent:
+                par = parent[id(n_)]
+                if par["k"] == "Arm" and id(par) in parent and parent[id(par)]["k"] == "Match":
+                    scrut = parent[id(par)]["scrut"]
+                    break
+                if par["k"] in ("Let", "LetStmt") and par.get("init") is not None:
+                    scrut = par["init"]
+                    break
+                n_ = par
+            fetch_keys[k] = {lid for lid, ty in closure_lids(scrut).items() if re.search(r"(TypeAddress|ValueAddress|ModuleItemAddress)\b", ty)} if scrut is not None else set()
+        for c in walk(tree["body"]):
+            if c["k"] not in ("Call", "MethodCall"):
+                continue
+            args = ([c["recv"]] + c["args"]) if c["k"] == "MethodCall" else c["args"]
+            if c["k"] == "MethodCall" and c["method"] in ("clone", "as_ref", "iter", "find", "and_then", "map", "cloned", "into_iter", "unwrap", "expect", "ok_or", "ok_or_else", "to_string", "borrow"):
+                continue
+            if c["k"] == "Call" and re.search(r"^std::|^core::|^alloc::", c.get("callee") or ""):
+                continue
+            tags = [D.tags(a) for a in args]
+            for k, d, _p in recs:
+                syn_args = [a for a, t_ in zip(args, tags) if "syn#" + k in t_ and "swc_ecma_ast::" in (a.get("ty") or "")]
+                if not syn_args:
+                    continue
+                # (a location that travelled through a tuple together with the syntax carries both tags: judge it by
+                # its type, not by the absence of the syntax tag)
+                ctx_args = [(a, t_) for a, t_ in zip(args, tags) if LOC_TY.search(a.get("ty") or "") and "swc_ecma_ast::" not in (a.get("ty") or "")]
+                if not ctx_args:
+                    continue
+                n += 1
+                ok = any("loc#" + k in t_ or (set(closure_lids(a_)) & fetch_keys[k]) for a_, t_ in ctx_args)
+                callee = c.get("method") or (c.get("callee") or "?").rsplit("::", 1)[-1]
+                rep.ob(rid, "%s/%s/%s" % (g.rsplit("::", 1)[-1], d.rsplit("::", 1)[-1], callee), ok,
+                       "%s takes syntax out of a `%s` record and passes it to %s together with a file / address that does not come from the same record: names inside the syntax are then resolved in the module of the place of USE, so moving the declaration into another file changes what it means" % (g, d.rsplit("::", 2)[-2] + "::" + d.rsplit("::", 1)[-1], callee),
+                       "%s:%s" % (f.file, c["line"]), sample={"fn": g, "record": d, "call": callee})
+    rep.floor(rid, "hand-overs of located syntax", n, 4)
